@@ -1265,6 +1265,15 @@ func (p *parser) popScope() {
 			}
 
 			p.symbols[member.Ref.InnerIndex].Flags |= ast.MustNotBeRenamed
+
+			// The symbol may have been merged into a re-declaration of the same
+			// name in a nested scope that doesn't contain the direct eval (e.g.
+			// "function(x, y = eval('x')) { var x }"). The symbol that is printed
+			// is the one at the end of the link chain, so pin that one too.
+			for ref := member.Ref; p.symbols[ref.InnerIndex].Link != ast.InvalidRef; {
+				ref = p.symbols[ref.InnerIndex].Link
+				p.symbols[ref.InnerIndex].Flags |= ast.MustNotBeRenamed
+			}
 		}
 	}
 
